@@ -26,12 +26,13 @@ def current_report_paths(ctx):
     f = ctx.func(CUR)
     wq = {g.qual for g in m.all_funcs() if 'as_mininec' in g.name and not g.name.startswith('_')}
     out = []
-    for p in SymExec(ctx, f, bind_loops=True, no_expand=wq).run():
+    for p in SymExec(ctx, f, depth=4, bind_loops=True, no_expand=wq).run():
         if p.end == 'raise':
             continue
         objs = {mo.group(1) for t, b in p.conds if isinstance(b, bool)
                 for mo in [re.match(r'^(self\.geo\[_k\d+\])\.(is_ground|conn)\[[01]\]$', t)] if mo}
-        if not any(k == 'loop' and t == 'self.geo' for k, t in p.conds):
+        # one object is reported: inside a loop over self.geo, or as the element of map / a comprehension over it
+        if not any(k == 'loop' and t == 'self.geo' for k, t in p.conds) and not objs:
             continue
         if len(objs) != 1:
             raise AnalysisError('currents_as_mininec: the end conditions of the reported object are not tested '
@@ -87,8 +88,13 @@ def check_junction_accumulate(ctx, ck, rule='R-SIB.junction-accumulate'):
             it = '%s.conn[%d].pulse_iter()' % (obj, K)
             # accepted closed form: [0 +] sum(_each(IT[_k][1] * self.current[IT[_k][0]], IT))
             b = base
-            if isinstance(b, ast.BinOp) and isinstance(b.op, ast.Add) and isinstance(b.left, ast.Constant) and b.left.value == 0:
-                b = b.right
+            if isinstance(b, ast.BinOp) and isinstance(b.op, ast.Add):
+                try:
+                    from ..model import const_value
+                    if const_value(b.left) == 0:
+                        b = b.right         # 0 + sum(...), 0+0j + sum(...)
+                except (ValueError, TypeError):
+                    pass
             ok = False
             why = None
             if isinstance(b, ast.Call) and isinstance(b.func, ast.Name) and b.func.id == 'sum' and len(b.args) == 1 \
